@@ -472,16 +472,16 @@ Proof.
       destruct cop; rx; calls; fold_lits; rewrite Hres; rx; reflexivity.
     + destruct cop; [specialize (Ho eq_refl); congruence|]. rx. calls. all: try (fold_lits; rewrite Hres; rx; reflexivity).
   - (* Compressed *)
+    destruct Hl as [[Hl1 Hl3] Hl2]. change (2 ^ 23) with 8388608 in Hl3.
     subst off. cbn [option_map]. rx.
     destruct (N.leb_spec o' 72057594037927935); [|lia]. rx.
-    assert (Hcs : N.shiftl 1 cb mod 18446744073709551616 = 2 ^ cb).
-    { rewrite shiftl_1. apply (pow2_mod_small cb 64). lia. }
-    pose proof (pow2_lt_mono cb 22 ltac:(lia)). change (2 ^ 22) with 4194304 in *.
     assert (Ha : N.land o' 511 < 512) by (change 511 with (2 ^ 9 - 1); apply land_mask_lt).
+    assert (Hs2 : N.shiftl 1 (cb - 8) mod 18446744073709551616 = 2 ^ (cb - 8)).
+    { rewrite shiftl_1. apply (pow2_mod_small (cb - 8) 64). lia. }
     repeat (chk; calls).
-    all: rewrite ?Hcs in *.
+    all: rewrite ?Hs2 in *.
     all: try lia.
-    destruct (N.ltb_spec len (2 ^ cb)); [|lia]. rx.
+    destruct (N.ltb_spec ((len - 1 + N.land o' 511) / 512) (2 ^ (cb - 8))); [|lia]. rx.
     repeat (chk; calls). all: try lia.
     fold_lits. rewrite Hres. rx. reflexivity.
   - (* Unallocated *)
